@@ -44,12 +44,24 @@ def ring1(ctx, b):
     wd = ctx.sub("ring1")
     runs = 300 if ctx.quick() else 1500
     n = 0
-    for (P, J, NC) in [(1, 3, 1), (2, 3, 1), (2, 4, 1), (3, 5, 1), (1, 2, 2), (2, 3, 2)] + ([] if ctx.quick() else [(3, 6, 2), (4, 8, 1), (2, 0, 1)]):
-        for ordered in ((1, 0, 2) if NC > 1 else (1, 0)):        # 2: client 1 ordered (a writer), the others unordered (sorters)
-            for (mode, npre, sp) in [(0, 0, 0), (0, 0, 20), (1, 2, 0), (1, 3, 10)]:
+    base = [(P, J, NC, ordered, mode, npre, sp, None)
+            for (P, J, NC) in [(1, 3, 1), (2, 3, 1), (2, 4, 1), (3, 5, 1), (1, 2, 2), (2, 3, 2)] + ([] if ctx.quick() else [(3, 6, 2), (4, 8, 1), (2, 0, 1)])
+            for ordered in ((1, 0, 2) if NC > 1 else (1, 0))        # 2: client 1 ordered (a writer), the others unordered (sorters)
+            for (mode, npre, sp) in [(0, 0, 0), (0, 0, 20), (1, 2, 0), (1, 3, 10)]]
+    # several caller threads waiting for a pool thread at the same time (a pool smaller than the number of callers, few jobs each, so
+    # that one caller is done while another still waits)
+    base += [(P, J, NC, ordered, mode, npre, 0, 1)
+             for (P, J, NC) in [(2, 2, 2), (2, 3, 3)] + ([] if ctx.quick() else [(2, 3, 2), (3, 3, 3), (2, 2, 3)])
+             for ordered in (1, 0, 2)
+             for (mode, npre) in [(0, 0), (1, 3)]]
+    if True:
+        if True:
+            for (P, J, NC, ordered, mode, npre, sp, fconc) in base:
                 out = os.path.join(wd, "p%d.ndjson" % n)
                 seed0 = ctx.seed % 100000 + n * 7919
-                conc = 1 if (NC > 1 and n % 2 == 1) else 0        # every client with a caller thread of its own / one caller thread
+                conc = fconc if fconc is not None else (1 if (NC > 1 and n % 2 == 1) else 0)        # every client with a caller thread of its own / one caller thread
+                if fconc:
+                    runs = 500 if ctx.quick() else 2000
                 p = subprocess.run([prog, out, str(P), str(J), str(ordered), str(NC), str(runs), str(seed0), str(sp), str(mode), str(npre), str(conc)],
                                    stdout=subprocess.PIPE, stderr=subprocess.PIPE, text=True, timeout=600)
                 ctx.add("schedules", runs)
